@@ -43,12 +43,20 @@ class PvFault(RuntimeError):
     """Injected failure (an ordinary Exception subclass, picklable across processes)."""
 
 
+class PvSilentFault(RuntimeError):
+    """Injected failure whose message is empty (like `MemoryError()`, a bare `assert`, `raise NotImplementedError`);
+    the position still travels in `args` so the harness can tell where it came from."""
+
+    def __str__(self):
+        return ""
+
+
 class PvBaseFault(BaseException):
     """Injected non-Exception failure (outside the modelled behaviour)."""
 
 
 _EXC = {"PvFault": PvFault, "ValueError": ValueError, "MemoryError": MemoryError, "KeyError": KeyError,
-        "RuntimeError": RuntimeError, "OSError": OSError, "PvBaseFault": PvBaseFault}
+        "RuntimeError": RuntimeError, "OSError": OSError, "PvBaseFault": PvBaseFault, "PvSilentFault": PvSilentFault}
 
 
 def _dir():
